@@ -1727,12 +1727,14 @@ impl<T: Transport, Env: UtpEnvironment> VirtualSocket<T, Env> {
     }
 
     fn unsent_data_exists(&mut self) -> bool {
-        // either unsegmented data exists, or unsent data exists or both
+        // either unsegmented data exists, or unsent data exists or both.
+        // An outstanding MTU probe counts as well: if it is lost, its bytes are cut again into
+        // more (smaller) segments, which need sequence numbers below the FIN's.
         self.this_poll.unsegmented_data > 0
             || self
                 .user_tx_segments
                 .iter_mut_for_sending(None)
-                .any(|s| s.send_count() == 0)
+                .any(|s| s.send_count() == 0 || (s.is_mtu_probe() && !s.is_delivered()))
     }
 
     fn poll(&mut self, cx: &mut std::task::Context<'_>) -> Poll<crate::Result<()>> {
